@@ -207,6 +207,25 @@ def run_requests(gen):
                         f"(link back after {d}s)"))
         if d < 1.0 and False:
             pass
+    if gen == 4:
+        # the AirTouch 4 group status poll is a refresh request too: submitted by the client's own 300 s timer on a link
+        # that is (unknown to it) dead, it is not carried over to a connection that comes more than a second later -
+        # the re-connection's own refresh asks once, and that is all
+        for d in (0.5, 1.0 + EPS, 5.0):
+            w = world(gen)
+            L = w.loop
+            n += 1
+            L.run_until(299.0)
+            w.net.auto = None
+            w.net.live()[-1].fail_after = 0
+            L.run_until(300.0 + d)
+            w.net.auto = "accept"
+            w.net.resolve_all(True)
+            L.run_until(300.0 + d + 10.0)
+            polls = [r[0] for r in w.console.requests if r[2] == "req-zone-status" and r[0] >= 299.0]
+            if len(polls) != 1 and d > 1.0:
+                bad.append((f"at{gen}:api:poll-request-carried-over", f"at{gen}: group status poll submitted at t=300 on a dead link, link back "
+                            f"after {d}s: group status requests seen at {polls} (expected one, the refresh of the re-connection)"))
     return n, bad
 
 
